@@ -283,6 +283,7 @@ func cliConsumers(ckBase bool) []consumer {
 		{name: "schema-apply", model: "statesql", db: true, args: []string{"schema", "apply", "--to", "file://d?format=atlas", "--url", "sqlite://db.sqlite", "--dev-url", devURL, "--exclude", "atlas_schema_revisions", "--auto-approve"}},
 		{name: "schema-apply-dry", model: "statesql", db: true, args: []string{"schema", "apply", "--to", "file://d?format=atlas", "--url", "sqlite://db.sqlite", "--dev-url", devURL, "--exclude", "atlas_schema_revisions", "--dry-run"}},
 		{name: "schema-diff-from", model: "statesql", db: true, args: []string{"schema", "diff", "--from", "file://d?format=atlas", "--to", "sqlite://db.sqlite", "--dev-url", devURL, "--exclude", "atlas_schema_revisions"}},
+		{name: "schema-inspect", model: "statesql", args: []string{"schema", "inspect", "--url", "file://d?format=atlas", "--dev-url", devURL, "--format", "{{ sql . }}"}},
 		{name: "schema-diff-to", model: "statesql", db: true, args: []string{"schema", "diff", "--from", "sqlite://db.sqlite", "--to", "file://d?format=atlas", "--dev-url", devURL, "--exclude", "atlas_schema_revisions"}},
 	}
 	vers := []string{"2"}
@@ -292,6 +293,7 @@ func cliConsumers(ckBase bool) []consumer {
 	for _, v := range vers {
 		cs = append(cs,
 			consumer{name: "schema-apply-v" + v, model: "statesql", ver: v, db: true, args: []string{"schema", "apply", "--to", "file://d?format=atlas&version=" + v, "--url", "sqlite://db.sqlite", "--dev-url", devURL, "--exclude", "atlas_schema_revisions", "--auto-approve"}},
+			consumer{name: "schema-inspect-v" + v, model: "statesql", ver: v, args: []string{"schema", "inspect", "--url", "file://d?format=atlas&version=" + v, "--dev-url", devURL, "--format", "{{ sql . }}"}},
 			consumer{name: "schema-diff-v" + v, model: "statesql", ver: v, db: true, args: []string{"schema", "diff", "--from", "file://d?format=atlas&version=" + v, "--to", "sqlite://db.sqlite", "--dev-url", devURL, "--exclude", "atlas_schema_revisions"}},
 		)
 	}
@@ -638,7 +640,7 @@ func genConsCLI(w *out.W, tier string) (rule string) {
 		w.Case(id, fmt.Sprintf("%s %s %s %d", j.cons.model, vt, storeTokens(j.store, ckFlags(j.store)), setup),
 			[]string{fmt.Sprintf("out=%s v=%s", oc, j.api.v)})
 	}
-	return fmt.Sprintf("real CLI: %d runs = %d directories (3 plain files; 4 files with a checkpoint) x consumers (apply plain/1/2/--dry-run/--baseline/--allow-dirty/--tx-mode file|all|none/--exec-order linear|linear-skip|non-linear, status, set, the two with --env (atlas.hcl), lint, diff, validate, validate --dev-url, new, import --from (goose reading of the directory), hash, schema apply / apply --dry-run / diff --from / diff --to with file://d?format=atlas, and with &version=V) x database states (fresh, all applied, 1 of 3, 2 of 3, file 2 partially applied, dirty) x tamperings (per file: byte replaced, appended, removed, renamed; added front/middle/end; per sum line: hash edited with/without recomputed header, name edited; header edited; atlas.sum empty; atlas.sum removed) + the untampered control of each", len(jobs), len(cliBases))
+	return fmt.Sprintf("real CLI: %d runs = %d directories (3 plain files; 4 files with a checkpoint) x consumers (apply plain/1/2/--dry-run/--baseline/--allow-dirty/--tx-mode file|all|none/--exec-order linear|linear-skip|non-linear, status, set, the two with --env (atlas.hcl), lint, diff, validate, validate --dev-url, new, import --from (goose reading of the directory), hash, schema apply / apply --dry-run / diff --from / diff --to / inspect --url with file://d?format=atlas, and with &version=V) x database states (fresh, all applied, 1 of 3, 2 of 3, file 2 partially applied, dirty) x tamperings (per file: byte replaced, appended, removed, renamed; added front/middle/end; per sum line: hash edited with/without recomputed header, name edited; header edited; atlas.sum empty; atlas.sum removed) + the untampered control of each", len(jobs), len(cliBases))
 }
 
 // ---------------------------------------------------------------- part 2: library
